@@ -79,7 +79,12 @@ pub fn activate(ctx: &mut Ctx, p: &PropDef, known: &[KnownEntry]) -> Result<Vec<
                 // not listed: the region stays in the search and will be reported as a violation
             }
             Ok(None) => {}
-            Err(_) => return Err(format!("known-finding probe {sig} panicked")),
+            Err(_) => match crate::engine::take_foreign_panic() {
+                // The code under test panicked inside the probe: the finding does not reproduce as
+                // listed, so nothing is excluded and the generated search judges that region itself.
+                Some(text) => eprintln!("vp-run: probe {sig} of {}: code under test panicked ({text}); finding not reproduced as listed, its region is searched", p.id),
+                None => return Err(format!("known-finding probe {sig} panicked inside the harness")),
+            },
         }
     }
     Ok(out)
